@@ -707,6 +707,25 @@ func genRetriedFlows(r *rng, thorough bool, emit func(FlowScenario)) {
 	}
 }
 
+// nodes of unusual Go kinds: a struct used BY VALUE (not nillable), a nil pointer whose methods never touch the receiver, a pointer to
+// a zero-size struct: one lifecycle each, like any other node — alone and as a step of a flow
+func genOddNodeKinds(r *rng, emit func(FlowScenario)) {
+	t := &tokGen{r: r}
+	for _, impl := range []string{"value", "nilptr", "emptyA"} {
+		cfg := LeafCfg{Retryable: false, Budget: 1, Fb: "absent", PrepS: "direct", ExecS: "direct", PostS: "direct", Impl: impl}
+		for _, mask := range []uint{1, 0} {
+			for _, prepOK := range []bool{true, false} {
+				for pk := 0; pk < 3; pk++ {
+					t.next, t.errN = r.intn(30), r.intn(20)
+					scr := t.leafScript(0, 0, prepOK, mask, 2, true, postStr(t, pk, "a"))
+					emit(singleRun(cfg, scr))
+					emit(asFlowStep(cfg, scr, t))
+				}
+			}
+		}
+	}
+}
+
 // node types that differ in what they implement but print the same type name (function-local types, like same-named types of
 // two packages): a plain one is run first, then the ones with a retry budget and / or a fallback, then the plain one again
 func genTwins(r *rng, emit func(FlowScenario)) {
